@@ -81,17 +81,28 @@ def idiom_model(cases, name="c22_idiom"):
         return '"' + s.replace('"', '""') + '"'
     terms = ["is_reset_text %s %s" % (q(c["cond"]), q(c["rst"])) for c in cases]
     pre = "From VV Require Import Translate.TranslateModel.\nOpen Scope string_scope.\n"
-    return C.coq_eval_sharded(name, pre, terms, lambda l: l, shard=400)
+    for attempt in (0, 1):
+        try:
+            return C.coq_eval_sharded(name, pre, terms, lambda l: l, shard=400)
+        except RuntimeError as ex:
+            # another check rebuilt the shared coq/Rtl layer between our build and this evaluation
+            if attempt == 0 and "inconsistent assumptions" in str(ex):
+                C.coq_make(["Props/C22.vo"])
+                continue
+            raise
 
 
 # ----------------------------------------------------------------------------- programs
 
 PROFILES = {
-    # the constructs whose SystemVerilog spelling is also Veryl (carried verbatim by the translator)
-    "core": dict(tern=False, cast=False, xz_lit=False, pow=False, max_depth=3),
-    # one construct outside the carried set each, to (re)confirm the recorded findings
-    "ternary": dict(tern=True, cast=False, xz_lit=False, pow=False, max_depth=2),
+    # the generator runs with every construct on; `allow` decides which of the constructs that the translator does
+    # not carry (recorded findings) stay in the program: none for the core population, one per probe population
+    "core": dict(tern=True, cast=True, xz_lit=False, pow=False, max_depth=3),
+    "probe": dict(tern=True, cast=True, xz_lit=False, pow=False, max_depth=2),
 }
+PROBES = ["ternary", "rel", "replication", "size-cast", "case-block", "async-unrecognised", "keyword-ident"]
+# shapes that were recorded findings and are repaired in /repo (KNOWN_FINDINGS `fixed:`): part of the core population
+CORE_ALLOW = {"comb-block", "nested-case"}
 
 
 def strip_construct(m, allow):
@@ -109,11 +120,11 @@ def strip_construct(m, allow):
                 o = "ge"
             return ("bin", o, we(e[2]), we(e[3]))
         if k == "tern":
-            return ("tern", we(e[1]), we(e[2]), we(e[3]))
+            return ("tern", we(e[1]), we(e[2]), we(e[3])) if "ternary" in allow else we(e[2])
         if k == "cat":
             return ("cat", [(we(a), n if "replication" in allow else 1) for a, n in e[1]])
         if k == "cast":
-            return ("cast", e[1], we(e[2]))
+            return ("cast", e[1], we(e[2])) if "size-cast" in allow else we(e[2])
         if k == "sign":
             return ("sign", e[1], we(e[2]))
         return e
@@ -155,11 +166,26 @@ def single(stmts):
 def normalize(m, allow):
     """keep the program inside the shapes the translator carries (see KNOWN_FINDINGS for the others):
     an always_comb body and every case arm is exactly one statement"""
+    def nocase(stmts):
+        """a nested case inside a (non-default) case arm is a recorded finding (the arm is emitted as `default:`):
+        replace it by the statements of its default branch"""
+        out = []
+        for x in stmts:
+            if x[0] == "case":
+                out += nocase(x[3])
+            elif x[0] == "if":
+                out.append(("if", x[1], nocase(x[2]), nocase(x[3])))
+            else:
+                out.append(x)
+        return out
+
     def ws(s):
         k = s[0]
         if k == "if":
             return ("if", s[1], [ws(x) for x in s[2]], [ws(x) for x in s[3]])
         if k == "case":
+            if "nested-case" not in allow:
+                s = ("case", s[1], [(pats, nocase(body)) for pats, body in s[2]], s[3])
             arms = [(pats, single([ws(x) for x in body]) if "case-block" not in allow else [ws(x) for x in body])
                     for pats, body in s[2]]
             dflt = [ws(x) for x in s[3]]
@@ -177,10 +203,35 @@ def normalize(m, allow):
     return {"decls": m["decls"], "items": items, "order": m["order"]}
 
 
-def make_case(rng, profile, allow, cycles):
-    m, st, stim = S.gen_case(rng, cycles=cycles, profile=PROFILES[profile], params=True)
+def make_case(rng, profile, allow, cycles, params=True):
+    m, st, stim = S.gen_case(rng, cycles=cycles, profile=PROFILES[profile], params=params,
+                             unrecognised_async="async-unrecognised" in allow)
     m = normalize(strip_construct(m, allow), allow)
+    if "keyword-ident" in allow:
+        st["rst"] = "reset"
     return m, st, stim
+
+
+VERYL_KEYWORDS = {"reset", "clock", "input", "output", "var", "let", "inst", "param", "const", "type", "bit", "logic",
+                  "repeat", "step", "in", "as", "for", "if", "else", "case", "switch", "default", "function", "return",
+                  "module", "interface", "package", "import", "export", "enum", "struct", "union", "signed", "initial",
+                  "final", "assign", "always_ff", "always_comb", "if_reset", "tri", "inout", "modport", "embed", "include",
+                  "pub", "proto", "alias", "break", "inside", "outside", "unsafe", "false", "true", "converse", "same",
+                  "block", "gen", "bind", "lsb", "msb", "u8", "u16", "u32", "u64", "i8", "i16", "i32", "i64", "f32", "f64",
+                  "bool", "string", "clock_posedge", "clock_negedge", "reset_async_high", "reset_async_low",
+                  "reset_sync_high", "reset_sync_low", "p8", "p16", "p32", "p64", "bbool", "lbool"}
+
+
+def repairs_for(m, st):
+    """textual repairs of the recorded finding `clock-reset-typed-logic` (the translator types every port `logic`):
+    give the clock and, when it is in the sensitivity list, the reset their Veryl types"""
+    if not S.has_ff(m):
+        return []
+    r = [["%s: input logic," % st["clk"], "%s: input clock_posedge," % st["clk"]]]
+    if S.has_reset(m) and st["reset"].startswith("async"):
+        r.append(["%s: input logic," % st["rst"],
+                  "%s: input reset_async_%s," % (st["rst"], "low" if st["reset"].endswith("low") else "high")])
+    return r
 
 
 def harness_case(m, st, stim):
@@ -191,53 +242,107 @@ def harness_case(m, st, stim):
          "rst": st["rst"] if has_rst else None, "rst_active": S.rst_active_level(st),
          "ins": [[D[i][0], D[i][1]] for i in G.inputs_of(m)],
          "outs": [[D[i][0], D[i][1]] for i in G.outputs_of(m)],
+         "repairs": repairs_for(m, st),
+         "veryl_direct": G.to_veryl(m),
          "cycles": [{"r": 1, "v": ["0"] * len(G.inputs_of(m))}]}
     for (r, vals) in stim:
         c["cycles"].append({"r": 1 if r else 0, "v": ["%x" % p for p, _ in vals]})
     return c
 
 
-def judge(case, m, st, out, ref):
-    """the property on one program: returns list of (stage, detail)"""
-    if out.startswith("ERR translate"):
-        return [("sv-parse", "sv-parser rejected the generated SystemVerilog (generator defect?): " + out[:200])]
-    if not out.startswith("OK "):
-        return [("crash", out[:300])]
-    j = json.loads(out[3:])
-    if j["unsupported"]:
-        return [("unsupported", "reported unsupported: %s" % sorted(set(j["unsupported"])))]
-    if j["parse"]:
-        return [("parse", "the produced Veryl does not parse: " + j["parse"][:200])]
-    if j["errors"]:
-        return [("analyze", "the produced Veryl has analyzer errors: %s" % j["errors"])]
-    if j["build"]:
-        return [("build", "simulator IR build failed: " + j["build"][:200])]
-    if ref[0] != "OK":
-        return []      # outside the reference's preconditions: nothing to compare
-    got = j["trace"][1:]
+NONCORE = ["ternary", "rel-lt", "rel-gt", "replication", "size-cast", "pow", "xz-literal", "case-block",
+           "keyword-ident", "async-unrecognised"]
+
+
+def construct_of(tags):
+    for t in NONCORE:
+        if tags.get(t):
+            return t
+    return "core"
+
+
+def compare_trace(m, trace, ref):
+    got = trace[1:]
     want = [["%x/%x" % (p, mk) for (p, mk) in row] for row in ref[1]]
     for i, (g, w) in enumerate(zip(got, want)):
         if g != w:
             names = [d[0] for d in m["decls"] if d[4] == "out"]
             k = [n for n, a, b in zip(names, g, w) if a != b]
-            return [("behaviour", "cycle %d: outputs %s are %s, the SystemVerilog reference gives %s"
-                     % (i, k, [a for a, b in zip(g, w) if a != b], [b for a, b in zip(g, w) if a != b]))]
-    return []
+            return ("cycle %d: outputs %s are %s, the SystemVerilog reference gives %s"
+                    % (i, k, [a for a, b in zip(g, w) if a != b], [b for a, b in zip(g, w) if a != b]))
+    return None
 
 
-NONCORE = ["ternary", "rel-lt", "rel-gt", "replication", "pow", "xz-literal"]
+def judge(case, m, st, tags, out, ref):
+    """the property on one program: returns list of (key, detail).  Keys name the failing stage and the construct
+    that explains it (construct_of), so that recorded findings are specific."""
+    cons = construct_of(tags)
+    if out.startswith("ERR translate"):
+        return [("sv-parse:" + cons, "sv-parser rejected the generated SystemVerilog: " + out[:200])]
+    if not out.startswith("OK "):
+        return [("crash:" + cons, out[:300])]
+    j = json.loads(out[3:])
+    bad = []
+    if j["unsupported"]:
+        return [("unsupported:%s" % cons, "reported unsupported: %s" % sorted(set(j["unsupported"])))]
+    def akey(errs):
+        # core programs: the error names identify the defect; probe constructs: the construct does
+        return "analyze:%s:core" % "+".join(errs) if cons == "core" else "analyze:" + cons
+    if j["parse"]:
+        return [("parse:" + cons, "the produced Veryl does not parse: " + j["parse"][:160])]
+    res = j
+    if j["errors"]:
+        if S.has_ff(m) and set(j["errors"]) <= {"InvalidClock", "InvalidReset"}:
+            bad.append(("analyze:clock-reset-typed-logic",
+                        "the produced Veryl has analyzer errors %s: clock / reset ports of always_ff are typed `logic`" % j["errors"]))
+            res = j.get("repaired")
+            if res is None:
+                return bad
+            if res["parse"] or res["errors"] or res["build"]:
+                bad.append((akey(res["errors"] or ["parse-after-repair"]),
+                            "after typing clock/reset the produced Veryl still fails: %s %s %s"
+                            % (res["parse"], res["errors"], res["build"])))
+                return bad
+        else:
+            return [(akey(j["errors"]), "the produced Veryl has analyzer errors: %s" % j["errors"])]
+    if res["build"]:
+        return bad + [("build:" + cons, "simulator IR build failed: " + res["build"][:200])]
+    if ref[0] != "OK" or res["trace"] is None:
+        return bad
+    d = compare_trace(m, res["trace"], ref)
+    if d:
+        # triage: the same AST printed directly as Veryl must agree with the reference on this stimulus, otherwise the
+        # disagreement is between the reference and veryl's simulator (C02 / C18), not a translation defect
+        dj = j.get("direct")
+        if not dj or dj.get("trace") is None or compare_trace(m, dj["trace"], ref) is not None:
+            bad.append(("untriaged", "reference and veryl's simulator disagree on the untranslated design: " + d))
+            return bad
+        rk = ("ff-" + st["reset"]) if S.has_reset(m) else ("ff" if S.has_ff(m) else "comb")
+        bad.append((("behaviour:core:" + rk) if cons == "core" else ("behaviour:" + cons), d))
+    return bad
 
 
-def classify(stage, tags, st, m):
-    """stable key for KNOWN_FINDINGS: failing stage + the construct that explains it"""
-    for t in NONCORE:
-        if tags.get(t):
-            return "%s:%s" % (stage, t)
-    if S.has_ff(m) and stage in ("analyze", "build", "behaviour"):
-        if S.has_reset(m):
-            return "%s:ff-%s" % (stage, st["reset"])
-        return "%s:ff" % stage
-    return "%s:core" % stage
+def corpus_cases():
+    import os
+    out = []
+    d = os.path.join(C.VERIF, "corpus", PID)
+    if os.path.isdir(d):
+        for f in sorted(os.listdir(d)):
+            if f.endswith(".json"):
+                for ln in open(os.path.join(d, f)):
+                    if ln.strip():
+                        out.append(json.loads(ln))
+    fx = os.path.join(C.REPO, "crates/translator/tests/fixtures")
+    if os.path.isdir(fx):
+        for f in sorted(os.listdir(fx)):
+            # only the fixture that lies inside the µSV core (the others use functions / generate / instances /
+            # interfaces: outside this check)
+            if f == "sample2.sv":
+                sv = open(os.path.join(fx, f)).read()
+                has_ff = "always_ff" in sv
+                out.append({"name": "fixture:" + f, "sv": sv,
+                            "expect_key": "analyze:clock-reset-typed-logic" if has_ff else None})
+    return out
 
 
 def run(tier, seed, replay):
@@ -281,13 +386,37 @@ def run(tier, seed, replay):
                     m = untuple_module(m)
                     stim = [(r, [tuple(v) for v in vals]) for r, vals in stim]
                     ref = R.ref_eval(refbin, [(m, stim, mode)])[0]
-                    for stage, w in judge(c, m, st, out, ref):
-                        res.violation(rp.get("key", stage), w, {"case": c})
+                    for key, w in judge(c, m, st, S.tags(m, st), out, ref):
+                        res.violation(key, w, {"case": c})
         return res.finish()
 
     rng = random.Random(seed * 7919 + 22)
     quick = tier == "quick"
     found = []
+
+    # ---- 0. corpus: hand-written minimal inputs (recorded findings + constructs that must keep working) and the
+    #         repository's own translator fixtures; judged on (a) unsupported, (b) parse / analyse
+    corp = corpus_cases()
+    outs = C.run_lines(binary, [json.dumps({"sv": c["sv"], "top": "Top", "clk": None, "rst": None, "ins": [], "outs": [],
+                                            "cycles": []}) for c in corp], args=CONFIGS[0][1])
+    for c, o in zip(corp, outs):
+        stage = None
+        if not o.startswith("OK "):
+            stage = "crash: " + o[:200]
+        else:
+            j = json.loads(o[3:])
+            if j["unsupported"]:
+                stage = "reported unsupported %s" % j["unsupported"]
+            elif j["parse"]:
+                stage = "the produced Veryl does not parse: " + j["parse"][:120]
+            elif j["errors"]:
+                stage = "the produced Veryl has analyzer errors %s" % j["errors"]
+        exp = c.get("expect_key")
+        if stage and exp and not exp.startswith("behaviour:"):
+            found.append((exp, "[corpus %s] %s" % (c["name"], stage), {"sv": c["sv"]}, None, None))
+        elif stage and not (exp or "").startswith("behaviour:"):
+            found.append(("corpus:" + c["name"], "[corpus %s] %s" % (c["name"], stage), {"sv": c["sv"]}, None, None))
+    res.coverage["corpus_cases"] = len(corp)
 
     # ---- 1. reset idiom: model vs real translator
     idi = idiom_cases(rng, 300 if quick else 3000)
@@ -311,35 +440,41 @@ def run(tier, seed, replay):
                       "and the model disagree on if_reset: %s" % (c["cond"], c["rst"], c["sens"], c["simple"], o),
                       {"sv": c["sv"], "translate_only": True}, None, None))
 
-    # ---- 2. programs
-    nprog = {"core": 60 if quick else 1500, "ternary": 6 if quick else 60}
-    allow = {"core": set(), "ternary": set()}
+    # ---- 2. programs: the core population (must be clean) and one probe population per recorded finding
+    pops = [("core", "core", set(CORE_ALLOW), 60 if quick else 1500, CONFIGS)]
+    for p in PROBES:
+        pops.append((p, "probe", {p} | CORE_ALLOW, 6 if quick else 60, CONFIGS[:1]))
     total = 0
     fails = 0
-    for prof in ("core", "ternary"):
+    untriaged = 0
+    for (pname, prof, allow, n, configs) in pops:
         progs = []
-        for i in range(nprog[prof]):
-            r2 = random.Random("%d-%s-%d" % (seed, prof, i))
-            m, st, stim = make_case(r2, prof, allow[prof], cycles=10 if quick else 16)
-            progs.append((m, st, stim))
-        for (nm, args, mode) in CONFIGS:
+        for i in range(n):
+            r2 = random.Random("%d-%s-%d" % (seed, pname, i))
+            progs.append(make_case(r2, prof, allow, cycles=10 if quick else 16))
+        for (nm, args, mode) in configs:
             cases = [harness_case(m, st, stim) for (m, st, stim) in progs]
             outs = C.run_lines(binary, [json.dumps(c) for c in cases], args=args, timeout=900)
-            refs = R.ref_eval(refbin, [(m, [(True, [(0, 0)] * len(G.inputs_of(m)))][:0] + stim, mode) for (m, st, stim) in progs])
+            refs = R.ref_eval(refbin, [(m, stim, mode) for (m, st, stim) in progs])
             for (m, st, stim), c, o, ref in zip(progs, cases, outs, refs):
                 total += 1
                 tg = S.tags(m, st)
                 for t in tg:
                     res.hist("construct_histogram", t, tg[t])
-                res.hist("reset_style_histogram", "%s cond=%s" % (st["reset"], st["cond"]))
-                bad = judge(c, m, st, o, ref)
-                if bad:
+                res.hist("population_histogram", pname)
+                if S.has_reset(m):
+                    res.hist("reset_style_histogram", "%s cond=%s" % (st["reset"], st["cond"]))
+                bad = judge(c, m, st, tg, o, ref)
+                if any(k == "untriaged" for k, _ in bad):
+                    untriaged += 1
+                bad = [b for b in bad if b[0] != "untriaged"]
+                if [b for b in bad if b[0] not in res.known]:
                     fails += 1
-                for stage, w in bad:
-                    key = classify(stage, tg, st, m)
-                    found.append((key, "[%s] %s" % (nm, w), c, {"m": m, "st": st, "stim": stim}, nm))
+                for key, w in bad:
+                    found.append((key, "[%s/%s] %s" % (pname, nm, w), c, {"m": m, "st": st, "stim": stim}, nm))
                 if total <= 2:
                     res.sample({"config": nm, "sv": c["sv"][:600], "result": o[:300]})
+    res.coverage["untriaged_reference_vs_simulator"] = untriaged
     res.coverage["evaluations"] = total + len(idi)
     res.coverage["distinct_nontrivial"] = total
     res.coverage["rule"] = ("µSV modules printed from random µRTL ASTs (vp/gen/rtl.py Gen: boundary widths 1..200, signed/unsigned, "
